@@ -269,7 +269,16 @@ func selectDeflate(extensions []websocketExtension, mode CompressionMode) (*comp
 
 func acceptDeflate(ext websocketExtension, mode CompressionMode) (*compressionOptions, bool) {
 	copts := mode.opts()
-	for _, p := range ext.params {
+	for i, p := range ext.params {
+		// An offer that repeats a parameter name is invalid and has to be
+		// declined, see RFC 7692 section 7.
+		name := strings.SplitN(p, "=", 2)[0]
+		for _, q := range ext.params[:i] {
+			if strings.SplitN(q, "=", 2)[0] == name {
+				return nil, false
+			}
+		}
+
 		switch p {
 		case "client_no_context_takeover":
 			copts.clientNoContextTakeover = true
